@@ -323,20 +323,32 @@ def corpus(ctx, work):
 
 # ------------------------------------------------------------------------------------------
 # NameLookup: programs over the namespace tree  :: > A > B,  :: > N
-QUAL = {1: "", 2: "::A", 3: "::A::B", 4: "::N"}
-OPEN = {1: ("", ""), 2: ("namespace A { ", " }"), 3: ("namespace A { namespace B { ", " } }"), 4: ("namespace N { ", " }")}
+QUAL = {1: "", 2: "::A", 3: "::A::B", 4: "::N", 5: "::C", 6: "::A::D"}
+OPEN = {1: ("", ""), 2: ("namespace A { ", " }"), 3: ("namespace A { namespace B { ", " } }"), 4: ("namespace N { ", " }"),
+        5: ("struct C { ", " };"), 6: ("namespace A { struct D { ", " }; }")}
 HELPER = """template<class X> struct P1;
 template<class X> struct P1<void(X *)> { static const int id = X::id; };
+template<class K, class X> struct P1<void (K::*)(X *)> { static const int id = X::id; };
 """
 
 
 def render_lookup(n, rec):
+    """Namespaces can be reopened, classes cannot: a class (scope 5, 6) is written once — where its nested T
+    is declared, or at the end when the referencing member function lives in it (then with its nested T)."""
     root = "::c%d" % n
     out = ["namespace c%d {" % n, "namespace A { namespace B {} } namespace N {}"]
+    rs = rec["rs"]
+    sp = rec["sp"]
+    if sp == "::T":
+        sp = root + "::T"
+    held = {}                     # class scope -> text of its nested declaration, when the ref lives in that class
     for it in rec["items"]:
         o, c = OPEN[it["s"]]
         if it["k"] == "decl":
             body = "struct T { static const int id = %d; };" % it["e"]
+            if it["s"] in (5, 6) and it["s"] == rs:
+                held[it["s"]] = body
+                continue
         elif it["k"] == "udecl":
             body = "using %s%s::T;" % (root, QUAL[it["q"]])
         elif it["k"] == "udir":
@@ -344,17 +356,16 @@ def render_lookup(n, rec):
         else:
             body = "namespace AL = %s%s;" % (root, QUAL[it["q"]])
         out.append(o + body + c)
-    sp = rec["sp"]
-    if sp == "::T":
-        sp = root + "::T"
-    o, c = OPEN[rec["rs"]]
-    out.append(o + "void use(%s *p);" % sp + c)
+    o, c = OPEN[rs]
+    member = "void use(%s *p);" % sp
+    out.append(o + (held.get(rs, "") + " " if rs in held else "") + member + c)
     out.append("}")
     return out
 
 
 def lookup_assert(n, rec):
-    return 'static_assert(P1<decltype(c%d%s::use)>::id == %d, "c%d");' % (n, QUAL[rec["rs"]], rec["r"], n)
+    amp = "&" if rec["rs"] in (5, 6) else ""
+    return 'static_assert(P1<decltype(%sc%d%s::use)>::id == %d, "c%d");' % (amp, n, QUAL[rec["rs"]], rec["r"], n)
 
 
 def name_lookup(ctx, work):
